@@ -8,6 +8,7 @@
 #[path = "/repo/soa-derive-internal/src/vec.rs"] mod vec;
 #[path = "/repo/soa-derive-internal/src/generic.rs"] mod generic;
 #[path = "/repo/soa-derive-internal/src/names.rs"] pub(crate) mod names;
+mod skel;
 
 use quote::ToTokens;
 use syn::{Expr, ImplItem, Item, Type};
@@ -1032,4 +1033,7 @@ fn main() {
     let mut b = String::new();
     bodies(&mut b);
     write_if_changed(&format!("{}/Bodies.lean", outdir), &b);
+    let mut k = String::new();
+    skel::skeletons(&mut k);
+    write_if_changed(&format!("{}/Skel.lean", outdir), &k);
 }
